@@ -303,6 +303,11 @@ SPECIAL = ["None", "none", "NONE", "nOnE", "Auto", "auto", "AUTO", "aUtO", "True
 JUNK = ["sin", "[1,2", "1 +", "()", "[]", "[[]]", "(())", "( )", "abc", "$x", "1.2.3", "0x10", "0b11", "1e", "++1", "--1",
         "\xb2", "1\xa0", "\xa01", "\x1c1", "1\x1f", ",", ";", ",,", "(,)", "[;]", ")(", "][", "(1", "1)", "(1]", "[1)",
         "1,", ",1", "1__0", "_1", "1_", "+ 1", "\xe9", "1\xa02", "lambda: 1", "print", "{1}", "1 if 1 else 2", "-", "*", "="]
+# texts that are or become empty / unbalanced / operator-only (also for C16's converter stream)
+EMPTYISH = ["()", "[]", "( )", "[ ]", "(())", "([])", "[()]", "[[]]", "( ( ) )", "((  ))", '""', "''", '" "', '"" ""', '"()"', "'[]'",
+            '"( )"', "(", ")", "[", "]", "((", "))", "(]", "[)", "([)]", ")(", "][", "(1", "1)", "[1,2", "1,2]", "(1,(2)", "+", "-", "*", "/",
+            "**", "=", "1 +", "* 1", "1 *", "+ +", "(+)", "[-]", ",", ";", ",;,", "(,)", "[;]", "inf", "-inf", "nan", "1e999", "-1e999",
+            "10**400", "-10**400", "(inf)", "[nan]", "[1e999]", "(10**400)", "inf nan", "1e999,10**400"]
 QUOTED = ['"1"', "'2'", '"None"', '"Auto"', '" 5 "', "'1' '2'", '"1,2"', '"1;2"', "'true'", '"yes"', '"1 " 2', '""', '" "',
           '"1" None', '"[1" "2]"', "'(1' 2)", '"1\\"2"', '"no ne"', '" True "', '" false "', '" Auto "', '" none "',
           '"\tauto\t"', "' TRUE'", '"None "', '" 1_0 "', '"\xa0AUTO\x1f"', '" yes "', '"on "']
@@ -320,7 +325,7 @@ def recase(s, rng):
 
 
 def fixed_texts(tier):
-    t = INTS + FLOATS + EXPRS + HUGE + SPECIAL + JUNK + QUOTED + ["", " ", "  1  ", "\t2"]
+    t = INTS + FLOATS + EXPRS + HUGE + SPECIAL + JUNK + QUOTED + EMPTYISH + ["", " ", "  1  ", "\t2"]
     # list forms, deterministic
     lists = []
     elems = [["1", "2"], ["1", "2", "3"], ["1"], [], ["1.5", "-2.5"], ["1", "None"], ["Auto", "2"], ["1", "2", "3", "4"],
@@ -345,7 +350,7 @@ def random_text(rng):
         s = rng.choice(SPECIAL)
         return recase(s, rng) if rng.random() < 0.6 else s
     if r < 0.42:
-        return rng.choice(JUNK + QUOTED)
+        return rng.choice(JUNK + QUOTED + EMPTYISH)
     if r < 0.5:
         # small arithmetic expression
         a, b = rng.choice(INTS + FLOATS[:8]), rng.choice(["1", "2", "3", "4", "0.5", "2.0", "0"])
@@ -380,29 +385,12 @@ def parse_safe(text):
         and not text.lstrip().startswith("=")
 
 
-def nan_risk(text):
-    """over-approximation of 'may evaluate to NaN' (finding F6-nan)"""
-    t = text.lower()
-    if "nan" in t:
-        return True
-    big = "inf" in t or re.search(r"e\+?\d{3}", t) or "**" in t
-    return bool(big and re.search(r"[-+*/%]", t))
-
-
 def has_bounds(ty):
     if ty[0] in ("int", "float"):
         return ty[1] is not None or ty[2] is not None
     if ty[0] in ("ints", "floats"):
         return ty[4] is not None or ty[5] is not None
     return False
-
-
-def nan_bound(ty):
-    b = ty[1:3] if ty[0] in ("int", "float") else ty[4:6] if ty[0] in ("ints", "floats") else []
-    return any(x is not None and "nan" in x for x in b)
-
-
-F6_WITNESS = [["float", "0", "3", True], "nan", "v"]
 
 
 class EvalRecorder:
@@ -453,16 +441,24 @@ class FromWords(Stream):
         converters.eval = self.rec
         self.masters = {}
         self.side = {}
-        self.f6_known = any(f.get("id") == "F6-nan" for f in vlib.load_findings("C10"))
 
     # -- generation
     def corpus(self):
         return [
-            F6_WITNESS,
-            [["floats", None, None, None, "0", None, False, False], "1 nan", "v"],
-            [["int", None, None, True], "inf", "v"],          # round(inf): OverflowError (C16's topic)
-            [["int", None, None, True], "nan", "v"],          # round(nan): ValueError
-            [["float", None, None, True], "10**400", "v"],    # float(10**400): OverflowError
+            # former finding F6-nan (repaired in 67726f2): NaN with a bound must be refused now
+            [["float", "0", "3", True], "nan", "v"],
+            [["floats", 2, None, None, "0", None, False, False], "1 nan", "v"],
+            [["float", None, "3", True], "nan", "v"],
+            [["float", "nan", None, True], "1", "v"],         # a NaN bound refuses everything
+            [["float", None, None, True], "nan", "v"],        # without bounds NaN is a float like any other
+            [["int", None, None, True], "inf", "v"],          # repaired in 8adc407: NotInteger, no OverflowError
+            [["int", None, None, True], "nan", "v"],          # likewise, no ValueError
+            [["ints", None, None, None, None, None, False, False], "1 inf", "v"],
+            [["float", None, None, True], "10**400", "v"],    # repaired in 7b2d749: NotFloat, no OverflowError
+            [["floats", None, None, None, None, None, False, False], "1 10**400", "v"],
+            [["ints", None, None, None, None, None, False, False], "()", "v"],    # empty after bracket stripping
+            [["floats", None, None, None, None, None, False, False], "(( ))", "v"],
+            [["ints", None, 1, None, None, None, False, False], '""', "v"],
             [["int", None, "3", True], "10**4300", "v"],      # "%d" % huge inside the error message: ValueError
             [["int", None, None, True], "(True)", "v"],       # eval gives a bool: returned as it is
             [["int", "0", "3", False], "4/2", "v"],
@@ -500,6 +496,16 @@ class FromWords(Stream):
             big += [(tx, ty) for tx in BIGDIG for ty in (ip, ib, fp_, il)]
         for tx, ty in big:
             yield [ty, tx, "v"]
+        # every empty-ish / unbalanced / operator-only / non-finite text meets every type family, with and without constraints
+        reps = [["bool"], ["int", None, None, True], ["int", "0", "3", False], ["float", None, None, True], ["float", "0", "3", False],
+                ["ints", None, None, None, None, None, False, False], ["ints", 2, None, None, "0", "3", True, True],
+                ["ints", None, 1, None, None, None, False, False],
+                ["floats", None, None, None, None, None, False, False], ["floats", 2, None, None, "0", "3", True, True],
+                ["floats", None, None, 2, "0", None, False, False]]
+        for ty in reps:
+            for tx in EMPTYISH:
+                yield [ty, tx, "v"]
+                yield [ty, tx, "w"]
         for i in range(nrand):
             ty = rng.choice(grid)
             yield [ty, random_text(rng), "w" if i % 10 == 0 else "v"]
@@ -569,8 +575,6 @@ class FromWords(Stream):
             if not ("x" in c or c in ("inf", "-inf", "nan")):
                 return "%s returned for a float" % c
         v = canon_to_py(c)
-        if (lo is not None or hi is not None) and v != v:
-            return "F6-nan: NaN returned although value_min/value_max are set"
         if lo is not None and not (v >= self.bound(lo)):
             return "%s is below value_min=%s" % (c, lo)
         if hi is not None and not (v <= self.bound(hi)):
@@ -635,14 +639,6 @@ class FromWords(Stream):
         ty, text, mode = case
         if mode == "w" and not text.strip():
             return False  # the parser never hands an empty word list to a converter
-        if nan_bound(ty):
-            # value_min=nan / value_max=nan declares no domain at all (nothing is >= nan); the theorems carry the
-            # same escape (disjunct b = NNaN of ge_lo / le_hi).  Still compared against the model.
-            return False
-        # finding F6-nan (NaN passes value_min/value_max): excluded until it is listed in known_findings.json;
-        # once listed, the corpus witness reports it on every run
-        if ty[0] in ("float", "floats") and has_bounds(ty) and nan_risk(text):
-            return self.f6_known and case == F6_WITNESS
         return True
 
     def key(self, case, o):
@@ -940,24 +936,6 @@ class AsWords(Stream):
         return case[0][0] + ":" + (o[0] if o[0] == "ok" else (o[2] or o[1]))
 
 
-def match_finding(finding, failure):
-    """F6-nan: a float/floats parameter with value_min or value_max returns NaN."""
-    if finding.get("id") != "F6-nan":
-        return False
-    case = failure.get("case")
-    if not (isinstance(case, list) and len(case) == 3 and isinstance(case[0], list)):
-        return False
-    ty = case[0]
-    if ty[0] not in ("float", "floats") or not has_bounds(ty):
-        return False
-    o = failure.get("impl")
-    if not (isinstance(o, list) and o and o[0] == "ok"):
-        return False
-    v = o[1]
-    has_nan = v == "nan" or (isinstance(v, list) and "nan" in v)
-    return has_nan and str(failure.get("what", "")).startswith("F6-nan")
-
-
 SPEC = {
     "clusters": ["Conv"],
     "streams": [IntOfStr, FloatOfInt, NumCmp, CtorInit, FromWords],
@@ -977,5 +955,4 @@ SPEC = {
     "assumptions": ["text restricted to code points < 256", "eval returns (no eval bombs generated; every call under a 5 s alarm)",
                     "constructor arguments are plain numbers (int, float, bool) or None; sizes are ints",
                     "word lists handed to a converter are non-empty (the parser and validate() guarantee it)"],
-    "match_finding": match_finding,
 }
